@@ -50,7 +50,7 @@ def parseReq : List String → Option Req
   | ["setname", n] => do pure (.setDeviceName (← text? n))
   | ["getschedules"] => some .getSchedules
   | ["delsched", i] => do pure (.deleteSchedule (← text? i))
-  | ["createsched", a, b, d] => do pure (.createSchedule (← text? a) (← text? b) (csvNats d))
+  | ["createsched", a, b, form, d] => do pure (.createSchedule (← text? a) (← text? b) (form == "set") (csvNats d))
   | ["stop"] => some .stop
   | ["setpos", p] => do pure (.setPosition (← int? p))
   | ["getshutter"] => some .getShutterState
